@@ -44,8 +44,10 @@ def native(fn):
         if ok:
             with NoTracing():
                 return fn(*a, **k)
-        a2 = deep_realize(a)
-        k2 = deep_realize(k)
+        with NoTracing():
+            flags = [plain(x) for x in a]
+        a2 = tuple(x if ok_ else deep_realize(x) for x, ok_ in zip(a, flags))
+        k2 = {kk: deep_realize(v) for kk, v in k.items()}
         with NoTracing():
             return fn(*a2, **k2)
 
